@@ -58,6 +58,16 @@ def st_case(draw, tier):
     from vf.core.gen import st_unary_node
     from vf.core.prog import schema
 
+    if prog[0] != "leaf" and draw(st.integers(0, 9)) < 2:
+        # a materialization directly over a chain one of whose operands is a doomed leaf (the Processor prunes it)
+        from vf.core.prog import engine_of
+
+        cols = schema(prog, leaves)
+        i = len(leaves)
+        doomed = (f"L{i}", tuple(sorted(cols, key=lambda t: t.qualified_name)), (), engine_of(prog, leaves), "doomed", (0, 0), "plain")
+        leaves = tuple(leaves) + (doomed,)
+        pair = (("leaf", i), prog) if draw(st.booleans()) else (prog, ("leaf", i))
+        prog = ("chain",) + pair
     if prog[0] not in ("leaf", "mat") and draw(st.integers(0, 9)) < 7:
         m = ("mat", prog, "mroot")
         shape = draw(st.sampled_from(["plain", "op", "twice", "twice-op"]))
@@ -167,7 +177,7 @@ def run_case(case, stats):
         revisited = False
 
         def starts():
-            return {i: env.payloads[i].iter_starts for i in range(len(leaves))}
+            return {i: env.payloads[i].iter_starts for i in range(len(leaves)) if env.payloads[i] is not None}
 
         def sync_model(step):
             for n in nodes:
